@@ -265,6 +265,9 @@ func (v *Env) eval(x Expr) *Val {
 				}
 			}
 			ref := app("elem", b.c[0], idx)
+			if len(v.bound) == 0 {
+				return e.wfLoaded(e.loadAt(v.st, ref, t.Elem()))
+			}
 			return e.loadAt(v.st, ref, t.Elem())
 		case *types.Basic:
 			return &Val{typ: types.Typ[types.Uint8], c: []string{app("sat", b.c[0], i.c[0])}}
@@ -347,6 +350,29 @@ func (v *Env) eval(x Expr) *Val {
 			val := e.mapGet(v.st, mi, h.c[0], ck)
 			first := sel(e.arr(v.st, "C|string|", "Str"), app("elem", val.c[0], val.c[1]))
 			return &Val{typ: types.Typ[types.String], c: []string{ite(and(has, app(">", val.c[2], "0")), first, "str!empty")}}
+		case "valueat":
+			// valueat("callee#n", x): the value source variable x had at that call site
+			ts, ok := x.Args[0].(*EStr)
+			if !ok {
+				panic("contract: valueat(\"callee#n\", name)")
+			}
+			var site *ssa.Call
+			for _, b := range e.fn.Blocks {
+				for _, in := range b.Instrs {
+					if c, ok := in.(*ssa.Call); ok {
+						if fmt.Sprintf("%s#%d", siteName(c), e.siteOrdinal(c, siteName(c))) == ts.S {
+							site = c
+						}
+					}
+				}
+			}
+			if site == nil {
+				panic("contract: no call site " + ts.S)
+			}
+			c := *v
+			c.at = site
+			c.wantCur = true
+			return c.eval(x.Args[1])
 		case "cur":
 			c := *v
 			c.wantCur = true
@@ -594,7 +620,7 @@ func (v *Env) sel(base *Val, name string) *Val {
 				curT = f.Type()
 				continue
 			}
-			cur = e.loadLoc(v.st, &Loc{field: true, ref: ref, skey: structKey(curT), fname: f.Name(), typ: f.Type()})
+			cur = e.wfLoaded(e.loadLoc(v.st, &Loc{field: true, ref: ref, skey: structKey(curT), fname: f.Name(), typ: f.Type()}))
 			curT = f.Type()
 			inHeap = false
 			continue
@@ -604,7 +630,7 @@ func (v *Env) sel(base *Val, name string) *Val {
 		curT = f.Type()
 	}
 	if inHeap {
-		return e.loadAt(v.st, ref, curT)
+		return e.wfLoaded(e.loadAt(v.st, ref, curT))
 	}
 	return cur
 }
